@@ -1,0 +1,81 @@
+//go:build verif && linux && !appengine
+
+package fsnotify
+
+import (
+	"os"
+	"sort"
+
+	"golang.org/x/sys/unix"
+)
+
+// VerifNewPipedWatcher is newBackend with one difference: the reader goroutine
+// reads from readFd (owned by the harness) instead of from the inotify
+// descriptor, so that the harness can see and schedule the raw kernel stream.
+// All inotify_add_watch / inotify_rm_watch calls go to the real descriptor,
+// which is returned.
+func VerifNewPipedWatcher(sz uint, readFd int) (*Watcher, int, error) {
+	fd, errno := unix.InotifyInit1(unix.IN_CLOEXEC | unix.IN_NONBLOCK)
+	if fd == -1 {
+		return nil, -1, errno
+	}
+	ev, errs := make(chan Event, sz), make(chan error)
+	b := &inotify{
+		shared:      newShared(ev, errs),
+		Events:      ev,
+		Errors:      errs,
+		fd:          fd,
+		inotifyFile: os.NewFile(uintptr(readFd), "verif-pipe"),
+		watches:     newWatches(),
+		doneResp:    make(chan struct{}),
+	}
+	go b.readEvents()
+	return &Watcher{b: b, Events: ev, Errors: errs}, fd, nil
+}
+
+// VerifInotifyFd returns the inotify descriptor of a Watcher (for /proc/self/fdinfo).
+func VerifInotifyFd(w *Watcher) int { return w.b.(*inotify).fd }
+
+type VerifWatch struct {
+	Wd      uint32
+	Flags   uint32
+	Path    string
+	Recurse bool
+}
+
+type VerifPathEntry struct {
+	Path string
+	Wd   uint32
+}
+
+// VerifTableDump is a read-only snapshot of both bookkeeping tables, taken under mu.
+func VerifTableDump(w *Watcher) ([]VerifWatch, []VerifPathEntry) {
+	b := w.b.(*inotify)
+	b.mu.Lock()
+	defer b.mu.Unlock()
+	ws := make([]VerifWatch, 0, len(b.watches.wd))
+	for k, x := range b.watches.wd {
+		if x == nil {
+			ws = append(ws, VerifWatch{Wd: k, Path: "<nil>"})
+			continue
+		}
+		ws = append(ws, VerifWatch{Wd: k, Flags: x.flags, Path: x.path, Recurse: x.recurse})
+	}
+	sort.Slice(ws, func(i, j int) bool { return ws[i].Wd < ws[j].Wd })
+	ps := make([]VerifPathEntry, 0, len(b.watches.path))
+	for p, wd := range b.watches.path {
+		ps = append(ps, VerifPathEntry{Path: p, Wd: wd})
+	}
+	sort.Slice(ps, func(i, j int) bool { return ps[i].Path < ps[j].Path })
+	return ws, ps
+}
+
+// VerifNewEvent runs the inotify flag translation (and rename-cookie ring) of a
+// private, otherwise unused backend value.
+type VerifTranslator struct{ b *inotify }
+
+func VerifNewTranslator() *VerifTranslator { return &VerifTranslator{b: &inotify{}} }
+
+func (t *VerifTranslator) NewEvent(name string, mask, cookie uint32) Event {
+	return t.b.newEvent(name, mask, cookie)
+}
